@@ -149,6 +149,7 @@ def check(ctx):
 
     # expected component per (number of parts, district-type unit ids)
     want_parser = {"county_fips": lambda n, d: 1 if (d and n >= 2) else 0, "district": lambda n, d: 0}
+    parsers_found = []
     for key_, want_ in want_parser.items():
         vals = {x[3] for t_ in [us_.ret()] for x in ir.walk(t_) if x[0] == "setitem" and x[2] == ("const", key_)}
         okp, detail_ = bool(vals), f"{key_} is not recovered for unexpected units"
@@ -156,11 +157,27 @@ def check(ctx):
             parser = v_[2][0] if v_[0] == "call" and v_[1][0] == "attr" and v_[1][2] in ("apply", "map") and len(v_[2]) == 1 else None
             from_id = parser is not None and v_[1][1][0] == "sub" and v_[1][1][2] == ("const", "geographic_unit_fips")
             body_ = None
+            pfn = None
             if parser is not None and parser[0] == "attr" and parser[1] == ("param", "self"):
-                pfn = repo.cls(CDM, "CombinedDataHandler").methods.get(parser[2])
-                body_ = ctx.builder().summarize(pfn).ret() if pfn is not None else None
-            elif parser is not None and parser[0] == "lambda":
-                body_ = ctx.builder().lambda_apply(parser, [("param", "geographic_unit_fips")]) if False else None
+                pfn = repo.cls(CDM, "CombinedDataHandler").lookup(parser[2])
+            elif parser is not None and parser[0] == "global" and ":" in parser[1]:
+                # the parser is a module-level function handed to apply (with its other arguments through args= / keywords)
+                pm_, pq_ = parser[1].split(":", 1)
+                pfn = repo.modules[pm_].functions.get(pq_) if pm_ in repo.modules else None
+            if pfn is not None:
+                parsers_found.append(pfn)
+                body_ = ctx.builder().summarize(pfn).ret()
+                ps_ = [p_ for p_ in pfn.params if p_ != "self"]
+                sub_ = {("param", ps_[0]): ("param", "geographic_unit_fips")} if ps_ else {}
+                kw_ = dict(v_[3])
+                extra_ = kw_.get("args")
+                if extra_ is not None and extra_[0] in ("tuple", "list"):
+                    for p_, a_ in zip(ps_[1:], extra_[1]):
+                        sub_[("param", p_)] = a_
+                for k_, a_ in kw_.items():
+                    if k_ in ps_[1:]:
+                        sub_[("param", k_)] = a_
+                body_ = ir.subst(body_, sub_)
             good = from_id and body_ is not None
             if good:
                 try:
@@ -178,8 +195,12 @@ def check(ctx):
     # shape, so an index >= 1 into the '_'-split id needs a length guard on every path (else IndexError ends the whole run)
     CD_ = "elexmodel.handlers.data.CombinedData"
     nparse = 0
-    for qn in ("CombinedDataHandler._get_county_fips_from_geographic_unit_fips", "CombinedDataHandler._get_district_from_geographic_unit_fips"):
-        pf = ctx.fn(CD_, qn)
+    # the parsers are the functions the key recovery actually applies (found above), whatever they are called and wherever they live
+    pfs_ = list(dict.fromkeys(parsers_found))
+    if not pfs_:
+        pfs_ = [ctx.fn(CD_, qn) for qn in ("CombinedDataHandler._get_county_fips_from_geographic_unit_fips",
+                                           "CombinedDataHandler._get_district_from_geographic_unit_fips")]
+    for pf in pfs_:
         from ..cfg import CFG as _CFG
         pcfg = _CFG(pf.node)
         split_names = {t.id for a in util.own_nodes(pf, ast.Assign) for t in a.targets if isinstance(t, ast.Name)
@@ -213,7 +234,7 @@ def check(ctx):
                        f"component {idx} of the split id is read only where the id is known to have it" if guarded
                        else f"component {idx} of the '_'-split id is read without a length guard: an unexpected unit whose id has fewer parts "
                             f"raises IndexError and the whole estimate run fails")
-    ctx.sites("C11.R2.parse-total", nparse, 2, "indexed reads of the split unit id in the key parsers")
+    ctx.sites("C11.R2.parse-total", nparse, 2 if not parsers_found else 1, "indexed reads of the split unit id in the key parsers")
     # ---- R3 bootstrap ------------------------------------------------------------------------------
     bc = repo.cls(BM, "BootstrapElectionModel")
     for qn, names in (("get_aggregate_predictions", {"aggregate_z_total": "results_weights"}),
